@@ -79,21 +79,15 @@ func (h *NFSProcedureHandler) handleReaddir(body io.Reader, reply *RPCReply, aut
 
 	buf.Write(cookieVerf[:])
 
+	// count bounds the encoded READDIR3resok: everything after the status
+	// word, including the list terminator and the eof flag (8 bytes).
 	entryCount := 0
-	maxReplySize := int(count) - 100
-	if maxReplySize < 128 {
-		maxReplySize = 128
-	}
+	const dirlistTrailer = 8
 	reachedLimit := false
 
 	for i, entry := range entries {
 		if uint64(i) < cookie {
 			continue
-		}
-
-		if buf.Len() >= maxReplySize {
-			reachedLimit = true
-			break
 		}
 
 		// Skip entries with nil attrs
@@ -105,6 +99,20 @@ func (h *NFSProcedureHandler) handleReaddir(body io.Reader, reply *RPCReply, aut
 		fileId := entry.attrs.FileId
 		entry.mu.RUnlock()
 
+		// M1: Use path.Base() for name extraction
+		name := path.Base(entry.path)
+		if entry.path == "/" {
+			name = "/"
+		}
+
+		// entry3: value_follows + fileid + name (length, padded bytes) + cookie
+		entrySize := 4 + 8 + 4 + (len(name)+3)&^3 + 8
+		// (a first entry is always returned so that the client makes progress)
+		if entryCount > 0 && uint64(buf.Len()-4+entrySize+dirlistTrailer) > uint64(count) {
+			reachedLimit = true
+			break
+		}
+
 		xdrEncodeUint32(&buf, 1)
 
 		// R4: Copy fileId under RLock
@@ -112,11 +120,6 @@ func (h *NFSProcedureHandler) handleReaddir(body io.Reader, reply *RPCReply, aut
 			return nfsErrorWithPostOp(reply, NFSERR_IO), nil
 		}
 
-		// M1: Use path.Base() for name extraction
-		name := path.Base(entry.path)
-		if entry.path == "/" {
-			name = "/"
-		}
 		if err := xdrEncodeString(&buf, name); err != nil {
 			return nfsErrorWithPostOp(reply, NFSERR_IO), nil
 		}
@@ -209,21 +212,15 @@ func (h *NFSProcedureHandler) handleReaddirplus(body io.Reader, reply *RPCReply,
 
 	buf.Write(cookieVerf[:])
 
+	// maxcount bounds the encoded READDIRPLUS3resok: everything after the
+	// status word, including the list terminator and the eof flag (8 bytes).
 	entryCount := 0
 	reachedLimit := false
-	maxReplySize := int(maxCount) - 200
-	if maxReplySize < 256 {
-		maxReplySize = 256
-	}
+	const dirlistTrailer = 8
 
 	for i, entry := range entries {
 		if uint64(i) < cookie {
 			continue
-		}
-
-		if buf.Len() >= maxReplySize && entryCount > 0 {
-			reachedLimit = true
-			break
 		}
 
 		// Skip entries with nil attrs
@@ -235,6 +232,20 @@ func (h *NFSProcedureHandler) handleReaddirplus(body io.Reader, reply *RPCReply,
 		entryAttrsCopy := *entry.attrs
 		entry.mu.RUnlock()
 
+		// M1: Use path.Base() for name extraction
+		name := path.Base(entry.path)
+		if entry.path == "/" {
+			name = "/"
+		}
+
+		// entryplus3: value_follows + fileid + name + cookie + post_op_attr (4+84) + post_op_fh3 (4+4+8)
+		entrySize := 4 + 8 + 4 + (len(name)+3)&^3 + 8 + 88 + 16
+		// (a first entry is always returned so that the client makes progress)
+		if entryCount > 0 && uint64(buf.Len()-4+entrySize+dirlistTrailer) > uint64(maxCount) {
+			reachedLimit = true
+			break
+		}
+
 		xdrEncodeUint32(&buf, 1)
 
 		entryCookie := uint64(i + 1)
@@ -243,11 +254,6 @@ func (h *NFSProcedureHandler) handleReaddirplus(body io.Reader, reply *RPCReply,
 			return nfsErrorWithPostOp(reply, NFSERR_IO), nil
 		}
 
-		// M1: Use path.Base() for name extraction
-		name := path.Base(entry.path)
-		if entry.path == "/" {
-			name = "/"
-		}
 		if err := xdrEncodeString(&buf, name); err != nil {
 			return nfsErrorWithPostOp(reply, NFSERR_IO), nil
 		}
